@@ -86,7 +86,7 @@ def main(chk: core.Check, replay):
         return core.replay_generic(chk, replay)
     quick = chk.tier == "quick"
     consts = dict(CONSTS, NInter=1 if quick else 2, FreeSchedule=False, EmitMod=0, ExtraLayouts='{"headed"}',
-                  BaseMod=41 if quick else 97, PermEmitMod=11 if quick else 41)
+                  BaseMod=41 if quick else 97, PermEmitMod=4 if quick else 41)
     cfg = tlc.make_cfg(spec="PSpec", constants=consts,
                        invariants=["C10_SameModel", "C10_SameLayout", "C10_StillAccepted", "PEmit"])
     res = tlc.run_tlc("MC_Perm", cfg, workers=chk.nproc, timeout=3000, constants_for_summary=consts)
@@ -101,8 +101,9 @@ def main(chk: core.Check, replay):
         for o in ex.map(_worker, [c for c in chunks if c]):
             out.extend(o)
     chk.replayed += len(out)
-    kinds = {}
+    kinds, layouts = {}, {"headed": 0, "split": 0, "one-anonymous-component": 0}
     for o in out:
+        layouts["headed" if 'expressions("M")' in o["text"] else "split" if 'expressions("' in o["text"] else "one-anonymous-component"] += 1
         k = kinds.setdefault(o["perm"]["kind"] + ("+comment-lines" if o["perm"].get("sep") == "comments" else ""), {"texts": 0, "problems": 0})
         k["texts"] += 1
         multi = 'expressions("' in o["text"]
@@ -111,6 +112,9 @@ def main(chk: core.Check, replay):
             chk.violation(f"C10:{p.split(':')[0]}:{':'.join(p.split(':')[1:2])}:{o['perm']['kind']}:{'multi' if multi else 'single'}-component{':comment-lines' if o['perm'].get('sep') == 'comments' else ''}", o,
                           f"permutation {o['perm']['kind']} of the text: {p}")
     chk.extra["permutations"] = kinds
+    chk.extra["permuted_texts_by_layout"] = layouts
+    if not all(layouts.values()):
+        raise core.MachineryFailure(f"a component layout has no permuted text: {layouts}")
     swapped_duplicates(chk, quick)
     chk.sample({"text": out[0]["text"], "permuted": out[0]["permuted"], "perm": out[0]["perm"]})
 
